@@ -152,6 +152,12 @@ func genMapFamilies(g genCfg, c ContainerKind, level int, full bool) []*MapScen 
 		// reader of the very key being inserted while the table is replaced
 		add(&MapScen{Rel: RelSD, NKeys: 2, Init: []int{0, 0}, Table: TGrowArmed, Threads: [][]MIn{{on(ins, 0)}, {on(opLoad, 0)}}, ExpectGrow: true})
 	}
+	// F5b: the chain that triggers the grow has an overflow bucket: lookups and writes of keys living in it
+	for _, ff := range []bool{false, true} {
+		for _, b := range []MIn{opLoad, opStore, opDelete, opLoS, opLaD} {
+			add(&MapScen{Rel: RelSD, NKeys: 2, Init: []int{0, 1}, Table: TGrowArmed, Chain: 2, FillFirst: ff, Threads: [][]MIn{{on(opStore, 0)}, {on(b, 1)}}, ExpectGrow: true})
+		}
+	}
 	// F6: shrink in flight. T0 removes k0 leaving its bucket empty below the shrink threshold.
 	for _, del := range removeOps {
 		if level == 0 && del.Op != MDelete {
@@ -204,7 +210,7 @@ func genMapFamilies(g genCfg, c ContainerKind, level int, full bool) []*MapScen 
 				Threads: [][]MIn{{on(opStore, 0)}, {on(b, 1)}}, ExpectGrow: true})
 		}
 		// F12: four callers on one key / one bucket (MapOf only: the spin-lock Map explodes beyond three)
-		if c != CMap && c != CMapP {
+		if level >= 2 && c != CMap && c != CMapP {
 			four := []MIn{opStore, opDelete, opLoS, opLoad, opClear}
 			for i, a := range four {
 				for j, b := range four {
@@ -249,7 +255,7 @@ func init() {
 			lvl = 1
 		}
 		g := genCfg{prop: "C04", classes: OLin}
-		ms := genMapFamilies(g, CMapOfInt, 1, true) // MapOf scenarios are cheap: the quick tier runs the full family set
+		ms := genMapFamilies(g, CMapOfInt, 1+lvl, true) // MapOf scenarios are cheap: the quick tier runs the full family set (thorough: + four threads)
 		ms = append(ms, genMapFamilies(g, CMapOfStr, lvl, lvl >= 1)...)
 		ms = append(ms, genMapFamilies(g, CMapOfStruct, lvl, lvl >= 1)...)
 		return toScenarios(ms)
